@@ -8,6 +8,7 @@ from .. import malsrc
 ASSUMPTIONS = [
     'antlr4 runtime 4.13.2 and the generated mal_lexer.py / mal_parser.py implement the maximal-munch lexer and the LL parser of mal.g4; tied by running the same texts through them and the Lean recursive-descent model',
     'numbers are compared after float(); the model keeps lexemes',
+    'MalCompiler.compile accepts a file iff the start rule parses and consumes the whole token stream (EOF check of e0054c2); the printed texts are consumed completely (theorem parse_print_consumed; comments and blanks after the last declaration are not input)',
     'specifications are printable: names are lexable identifiers that are not reserved tokens (E C I A and keywords), strings contain no double quote, reaches expressions end in their attack step, let / requires expressions contain no attack step',
 ]
 TRUSTED = ['Lean 4.33 kernel', 'axioms: propext, Classical.choice, Quot.sound',
@@ -61,6 +62,9 @@ def check_case(spec, rnd, mo_plain, res):
     variants = [('single file', {'m.mal': plain}, 'm.mal', True)]
     noisy = '\n'.join(malsrc.blocks(spec, noise=rnd, rnd=rnd)) + '\n'
     variants.append(('re-formatted (comments, spacing, redundant parentheses, alternative multiplicity forms)', {'m.mal': malsrc.reformat(noisy, rnd)}, 'm.mal', True))
+    # since e0054c2 the compiler requires EOF after the last declaration: comments and blanks are not input
+    tail = rnd.choice([' // the end', '\n/* the end */', '   ', '\n\n\t', ' // c\r\n /* d " */ ', '\n// }', ''])
+    variants.append(('text ending in a comment / blanks without final newline', {'m.mal': plain.rstrip('\n') + tail}, 'm.mal', True))
     f1, root1 = malsrc.split_files(blks, rnd, True)
     variants.append(('split over included files (order preserved, repeated include)', f1, root1, True))
     f2, root2 = malsrc.split_files(blks, rnd, False)
@@ -80,6 +84,77 @@ def check_case(spec, rnd, mo_plain, res):
         payloads.append(({'op': 'compile', 'files': [[k, v] for k, v in files.items()], 'root': root}, got, what))
     return None, payloads
 
+# ---- recompile: the compiler's answer is a function of what the files say NOW ------------------------------------
+def edit_in_place(spec):
+    """what a caller may do with the dictionary it was handed: deep, in-place edits (no top-level key is re-assigned)"""
+    spec['associations'].clear()
+    spec['defines']['id'] = 'edited.in.place'; spec['defines']['injected'] = 'by the caller'
+    for c in spec['categories']: c['name'] += 'Edited'; c['meta']['edited'] = 'x'
+    for a in spec['assets']:
+        a['name'] += 'Renamed'; a['variables'].clear(); a['superAsset'] = None
+        for st in a['attackSteps']:
+            st['reaches'] = None; st['requires'] = None; st['ttc'] = None; st['tags'].append('edited'); st['meta']['edited'] = 'x'
+        del a['attackSteps'][1:]
+    del spec['assets'][1:]
+
+def rewrite_include(files, root, rnd):
+    """the same files with ONE included file (the root file, if nothing is included) given other declarations and another
+    length; every other file byte-identical"""
+    incs = sorted(n for n in files if n != root) or [root]
+    nm = rnd.choice(incs)
+    import re
+    blks = [b for b in files[nm].split('\n') if re.fullmatch(r'#\w+: "[^"]*"', b)] if rnd.random() < 0.3 else [files[nm].rstrip('\n')]
+    k = rnd.randint(1, 3)
+    extra = [f'#recompiled{k}: "round {k}"', f'category Rc{k} {{\n  asset RcAsset{k} {{\n    | rcStep{k}\n  }}\n}}'][:rnd.randint(1, 2)]
+    new = '\n'.join([b for b in blks if b] + extra) + '\n'
+    if len(new) == len(files[nm]): new += '\n'
+    return dict(files, **{nm: new}), nm
+
+def recompile_scenario(files, root, files2, changed, want):
+    """compile; edit the result in place; compile the same path again (same and fresh compiler object); rewrite one
+    included file; compile again.  Returns (violation | None, [(files, root, got, what)] for the model)"""
+    from maltoolbox.language.compiler import MalCompiler
+    d = os.path.join(scratch(), 'c04-recompile'); os.makedirs(d, exist_ok=True)
+    for nm in os.listdir(d):
+        if nm not in files: os.remove(os.path.join(d, nm))
+    malsrc.write_files(d, files)
+    path = os.path.join(d, root)
+    rep = {'scenario': {'files': files, 'root': root, 'files2': files2, 'changed': changed}, 'want': want}
+    def bad(what, fp, **kw): return Violation(what=what, fingerprint=fp, replay=dict(rep, **kw)), []
+    try:
+        same = MalCompiler()
+        r1 = same.compile(path)
+        if malsrc.canon_spec(copy.deepcopy(r1)) != want:
+            return bad('compiled specification differs from the source (first compilation of the recompile scenario)', 'C04:recompile-first')
+        edit_in_place(r1)
+        for who, comp in (('the same compiler object', same), ('a fresh compiler object', MalCompiler())):
+            r = comp.compile(path)
+            got = malsrc.canon_spec(copy.deepcopy(r))
+            if got != want:
+                diff = [k for k in want if got.get(k) != want[k]]
+                return bad(f'the unchanged file compiled again by {who}, after the caller edited the previously returned specification in place, gives the '
+                           f'edited specification, not what the file says (differs in {diff})', 'C04:recompile-after-edit', got={k: got.get(k) for k in diff})
+            edit_in_place(r)
+        # one included file rewritten; the main file is not touched (same bytes, same mtime)
+        with open(os.path.join(d, changed), 'w', encoding='utf-8') as fh: fh.write(files2[changed])
+        dref = os.path.join(scratch(), 'c04-recompile-ref')
+        if os.path.isdir(dref):
+            for nm in os.listdir(dref): os.remove(os.path.join(dref, nm))
+        malsrc.write_files(dref, files2)
+        ref = malsrc.canon_spec(MalCompiler().compile(os.path.join(dref, root)))
+        out = []
+        for who, comp in (('the same compiler object', same), ('a fresh compiler object', MalCompiler())):
+            got = malsrc.canon_spec(copy.deepcopy(comp.compile(path)))
+            if got != ref:
+                diff = [k for k in ref if got.get(k) != ref[k]]
+                stale = 'the result for the OLD contents' if got == want else 'something else'
+                return bad(f'after {changed} was rewritten ({"an included file; the main file is unchanged" if changed != root else "the file itself"}) compiling {root} again with {who} '
+                           f'gives {stale}, not what the files say now (differs in {diff})', 'C04:recompile-stale', got={k: got.get(k) for k in diff}, ref={k: ref[k] for k in diff})
+            out.append((files2, root, got, 'recompiled after a file was rewritten (' + who + ')'))
+        return None, out[:1]
+    except Exception as e:
+        return bad(f'recompile scenario raises {type(e).__name__}: {str(e)[:100]}', 'C04:recompile-raises')
+
 def sort_spec(s):
     s = dict(s)
     for k in ('categories', 'assets', 'associations'): s[k] = sorted(s[k], key=lambda x: json.dumps(x, sort_keys=True))
@@ -98,8 +173,8 @@ def run(seed, tier, lean) -> Result:
     rnd = random.Random(seed)
     res = Result(rule='random printable specifications (every step type, nested set / collect / transitive / subtype / variable expressions, TTC arithmetic '
                       'with 2-4 operators, all multiplicity forms, metas, several categories) printed with minimal parentheses and compiled by the real '
-                      'compiler: as one file, re-formatted (comments, odd spacing, redundant parentheses), split over included files in order, and '
-                      'arbitrarily (compared as sets); coreLang from the shipped .mar; each compiled text also through the Lean model; token streams of '
+                      'compiler: as one file, re-formatted (comments, odd spacing, redundant parentheses), ending in a comment / blanks without final newline, split over included files in order, and '
+                      'arbitrarily (compared as sets); recompile scenarios (the result edited in place by the caller, the same path compiled again by the same and a fresh compiler object; then one included file rewritten with the main file untouched and compiled again: always what the files say now); coreLang from the shipped .mar; each compiled text also through the Lean model; token streams of '
                       'the real lexer vs the model; non-trivial = the specification has a nested set/collect expression and a TTC with >= 2 operators')
     n = 120 if tier == 'quick' else 720
     pending = []
@@ -112,6 +187,14 @@ def run(seed, tier, lean) -> Result:
         if ('"union"' in txt or '"intersection"' in txt) and ('"addition"' in txt or '"multiplication"' in txt): res.nontrivial.add(canon_hash(spec))
         if v: res.violations.append(v); continue
         pending += [(spec, p, got, what) for p, got, what in payloads]
+        if i % 3 == 0:
+            blks = malsrc.blocks(spec)
+            files, root = malsrc.split_files(blks, r, True) if i % 6 == 0 else ({'m.mal': '\n'.join(blks) + '\n'}, 'm.mal')
+            files2, changed = rewrite_include(files, root, r)
+            v, outs = recompile_scenario(files, root, files2, changed, malsrc.canon_spec(spec))
+            res.bump('recompile scenarios' + (' (included file rewritten)' if changed != root else ' (single file)'))
+            if v: res.violations.append(v); continue
+            pending += [(None, {'op': 'compile', 'files': [[k, t] for k, t in f.items()], 'root': rt}, got, what) for f, rt, got, what in outs]
     # coreLang
     try:
         got, want, txt = corelang_check()
@@ -151,6 +234,10 @@ def run(seed, tier, lean) -> Result:
 
 def replay(path):
     r = json.load(open(path))
+    if 'scenario' in r:
+        sc = r['scenario']
+        v, _ = recompile_scenario(sc['files'], sc['root'], sc['files2'], sc['changed'], r['want'])
+        print(v.what if v else 'no violation'); print('VIOLATION reproduced' if v else 'not reproduced'); return 1 if v else 0
     if 'spec' in r:
         v, _ = check_case(r['spec'], random.Random(0), None, Result())
         print(v.what if v else 'no violation'); print('VIOLATION reproduced' if v else 'not reproduced'); return 1 if v else 0
